@@ -45,7 +45,7 @@ def one(sd):
     return os.path.basename(sd), meta, res, out
 
 
-with ThreadPoolExecutor(8) as ex:
+with ThreadPoolExecutor(12) as ex:
     results = list(ex.map(one, dirs))
 for name, meta, res, out in results:
     for l in out:
